@@ -153,3 +153,107 @@ Lemma fpow_val a e : 0 <= e -> val (fpow a e) = val a ^ e mod p.
 Proof.
   intros He. unfold fpow. rewrite val_mkfp, powmod_p by exact He. apply Z.mod_mod. apply p_ne_0.
 Qed.
+
+(* ---------- pow, sqrt ---------- *)
+Lemma fmul_val a b : val (fmul a b) = (val a * val b) mod p.
+Proof. reflexivity. Qed.
+Lemma fpow_add a e1 e2 : 0 <= e1 -> 0 <= e2 -> fpow a (e1 + e2) = fmul (fpow a e1) (fpow a e2).
+Proof.
+  intros H1 H2. apply fp_eq. rewrite fmul_val, !fpow_val by lia.
+  rewrite Z.pow_add_r by lia. rewrite <- Z.mul_mod by apply p_ne_0. reflexivity.
+Qed.
+Lemma fpow_0 a : fpow a 0 = fone.
+Proof. apply fp_eq. rewrite fpow_val by lia. reflexivity. Qed.
+Lemma fpow_1 a : fpow a 1 = a.
+Proof. apply fp_eq. rewrite fpow_val by lia. rewrite Z.pow_1_r. apply Z.mod_small. apply val_range. Qed.
+Lemma fpow_2 a : fpow a 2 = fmul a a.
+Proof. change 2 with (1 + 1). rewrite fpow_add by lia. rewrite fpow_1. reflexivity. Qed.
+Lemma fpow_mul a e1 e2 : 0 <= e1 -> 0 <= e2 -> fpow a (e1 * e2) = fpow (fpow a e1) e2.
+Proof.
+  intros H1 H2. apply fp_eq. rewrite !fpow_val by (try apply Z.mul_nonneg_nonneg; lia).
+  rewrite Z.pow_mul_r by lia. rewrite <- Zpower_mod by apply p_pos. reflexivity.
+Qed.
+
+Lemma fermat_fp a : a <> fzero -> fpow a (p - 1) = fone.
+Proof.
+  intros Ha. apply fp_eq. rewrite fpow_val by (vm_compute; congruence).
+  rewrite fermat; [reflexivity|]. pose proof (val_range a).
+  assert (val a <> 0). { intro H0. apply Ha. apply fp_eq. rewrite H0. reflexivity. }
+  lia.
+Qed.
+
+Lemma fsqrt_sound a r : fsqrt a = Some r -> fmul r r = a.
+Proof.
+  unfold fsqrt. destruct (feqb (fmul (fpow a ((p + 1) / 4)) (fpow a ((p + 1) / 4))) a) eqn:E; [|discriminate].
+  intros H. injection H as <-. apply feqb_eq. exact E.
+Qed.
+Lemma fsqrt_complete b : exists r, fsqrt (fmul b b) = Some r.
+Proof.
+  unfold fsqrt. set (a := fmul b b). set (r := fpow a ((p + 1) / 4)).
+  assert (Hr : fmul r r = a).
+  { destruct (fp_eq_dec b fzero) as [Hb|Hb].
+    - subst b. unfold r, a. apply fp_eq. vm_compute. reflexivity.
+    - unfold r, a. rewrite <- (fpow_2 b).
+      rewrite <- (fpow_mul b 2 ((p + 1) / 4)) by (vm_compute; congruence).
+      rewrite <- fpow_add by (vm_compute; congruence).
+      replace (2 * ((p + 1) / 4) + 2 * ((p + 1) / 4)) with ((p - 1) + 2) by (vm_compute; reflexivity).
+      rewrite fpow_add by (vm_compute; congruence). rewrite fermat_fp by exact Hb.
+      destruct fp_ring. rewrite Rmul_1_l. reflexivity. }
+  rewrite Hr, feqb_refl. exists r. reflexivity.
+Qed.
+
+(* ---------- ff_derive `random`: the limbs are the Montgomery form ---------- *)
+Lemma mont_rinv_spec : (mont_rinv * (2 ^ 192)) mod p = 1.
+Proof. vm_compute. reflexivity. Qed.
+Lemma fp_of_limbs_spec a b c x : fp_of_limbs a b c = Some x ->
+  let v := Z.of_N a + 2 ^ 64 * Z.of_N b + 2 ^ 128 * Z.of_N (N.land c 1) in
+  v < p /\ (val x * 2 ^ 192) mod p = v.
+Proof.
+  unfold fp_of_limbs. cbv zeta.
+  set (v := Z.of_N (a + 18446744073709551616 * b + 340282366920938463463374607431768211456 * N.land c 1)).
+  destruct (v <? p) eqn:E; [|discriminate]. apply Z.ltb_lt in E. intros H. injection H as <-.
+  assert (Hv : v = Z.of_N a + 2 ^ 64 * Z.of_N b + 2 ^ 128 * Z.of_N (N.land c 1)).
+  { unfold v. rewrite !N2Z.inj_add, !N2Z.inj_mul. reflexivity. }
+  rewrite <- Hv. split; [exact E|].
+  rewrite val_mkfp, Zmult_mod_idemp_l, <- Z.mul_assoc, <- Zmult_mod_idemp_r, mont_rinv_spec, Z.mul_1_r.
+  apply Z.mod_small. unfold v. lia.
+Qed.
+
+(* ---------- the published constants ---------- *)
+Lemma two_inv_spec : fmul (mkfp 2) f_two_inv = fone.
+Proof. apply fp_eq. vm_compute. reflexivity. Qed.
+Lemma f_S_spec : f_S = 1 /\ f_num_bits = 129 /\ f_capacity = 128.
+Proof. vm_compute. repeat split. Qed.
+(* the declared generator generates the whole multiplicative group: no smaller exponent gives 1 *)
+Lemma gen_pow_p1 : Params.generator ^ (p - 1) mod p = 1.
+Proof. rewrite <- powmod_spec by (vm_compute; intuition congruence). vm_compute. reflexivity. Qed.
+Lemma gen_order : forall q, In q [2; q0] -> Params.generator ^ ((p - 1) / q) mod p <> 1.
+Proof.
+  intros q [H|[H|[]]]; subst q.
+  - rewrite <- powmod_spec by (vm_compute; intuition congruence). vm_compute. congruence.
+  - rewrite <- powmod_spec by (vm_compute; intuition congruence). vm_compute. congruence.
+Qed.
+Theorem generator_order e : 0 < e < p - 1 -> Params.generator ^ e mod p <> 1.
+Proof. apply (no_small_order p Params.generator [2; q0] p_gt_1 prime_factors_p1 gen_pow_p1 gen_order). Qed.
+Theorem generator_generates k : 1 <= k < p -> exists i, 0 <= i <= p - 1 /\ k = Params.generator ^ i mod p.
+Proof. apply (all_units p Params.generator [2; q0] p_gt_1 prime_factors_p1 gen_pow_p1 gen_order). Qed.
+Lemma rou_spec : f_rou <> fone /\ fmul f_rou f_rou = fone /\ fmul f_rou f_rou_inv = fone /\ f_rou = fopp fone.
+Proof.
+  repeat split; try (apply fp_eq; vm_compute; reflexivity).
+  intro H. apply (f_equal val) in H. vm_compute in H. discriminate.
+Qed.
+Lemma delta_spec : f_delta = fmul f_gen f_gen.
+Proof. apply fp_eq. vm_compute. reflexivity. Qed.
+Lemma generator_nonresidue : forall b, fmul b b <> f_gen.
+Proof.
+  intros b Hb. 
+  assert (Hb0 : b <> fzero).
+  { intro E. subst b. apply (f_equal val) in Hb. vm_compute in Hb. discriminate. }
+  (* g^((p-1)/2) = b^(p-1) = 1, contradicting the order of g *)
+  apply (generator_order ((p - 1) / 2)); [vm_compute; intuition congruence|].
+  pose proof (fermat_fp b Hb0) as Hf.
+  replace (p - 1) with (2 * ((p - 1) / 2)) in Hf by (vm_compute; reflexivity).
+  rewrite fpow_mul in Hf by (vm_compute; congruence). rewrite fpow_2, Hb in Hf.
+  apply (f_equal val) in Hf. rewrite fpow_val in Hf by (vm_compute; congruence).
+  unfold f_gen in Hf. rewrite val_mkfp in Hf. rewrite <- Zpower_mod in Hf by apply p_pos. exact Hf.
+Qed.
